@@ -53,6 +53,18 @@ def gen_cases(tier, seed):
         for prog, outs in P.enum_program_outputs(shapes, req, depth, both_orders=(mode != "light")):
             light = mode == "light" or (mode == "mixed" and outs != sorted(outs))
             cases.append(dict(prog=prog, outs=outs, seed=seed, light=light))
+    # three output tensors of mixed rank (at least two 0-d ones and one of dimension >= 1) in every order: the rows follow the listing
+    # whatever the ranks are (added after a seeded change that stacked the 0-d tensors in front of the others)
+    for scen in ("S1", "S2"):
+        shapes, req = P.SHAPE_SCENARIOS[scen], P.FLAG_SCENARIOS["all"]
+        for prog, outs in P.enum_program_outputs(shapes, req, 2, max_outputs=3, both_orders=False):
+            if len(outs) != 3:
+                continue
+            tt = P.Typed(prog)
+            nd = [len(tt.shapes[o]) for o in outs]
+            if sum(1 for d in nd if d == 0) >= 2 and any(d > 0 for d in nd):
+                for perm in itertools.permutations(outs):
+                    cases.append(dict(prog=prog, outs=list(perm), seed=seed, light=True))
     # outputs that are themselves leaves (identity rows); only with explicit inputs (a leaf has no grad_fn to start discovery from)
     for scen, flags in (("S1", "all"), ("S2", "all"), ("S1", "L1off")):
         for depth in ((0, 1) if tier == "quick" else (0, 1, 2)):
